@@ -165,7 +165,14 @@ class LRUTrieNode(object):
                 chunks = []
 
                 while True:
-                    data = struct.unpack(LRU_TRIE_NODE_FORMAT, self.storage.read())
+                    tail_data = self.storage.read()
+
+                    # NOTE: after an interrupted write, the last node of the
+                    # storage may lack some of its tail blocks
+                    if tail_data is None:
+                        break
+
+                    data = struct.unpack(LRU_TRIE_NODE_FORMAT, tail_data)
                     chars = data[LRU_TRIE_NODE_STEM]
 
                     chunks.append(chars)
